@@ -1023,7 +1023,7 @@ class Builder:
                 new = nxt if nxt is not None else new
         return new
 
-    def twin(self, node_id: int):
+    def twin(self, node_id: int, prefer=None):
         """Add a sibling of `node_id`: same source(s), ONE parameter changed (reverse set, limit, a literal, an
         operator, a method, jointype...). Two consumers that differ in one parameter only are what a CTE cache key
         or an equality test must tell apart. Returns the new node id or None."""
@@ -1055,7 +1055,11 @@ class Builder:
         if not kinds:
             return None
         mini = {"tables": self.case["tables"], "nodes": self.case["nodes"][: node_id + 1], "root": node_id, "expr_mode": "text"}
-        for kind in g.draw(st.permutations(kinds)):
+        order = list(g.draw(st.permutations(kinds)))
+        if prefer in order:
+            order.remove(prefer)
+            order.insert(0, prefer)
+        for kind in order:
             try:
                 m = c11.mutate(mini, kind, g.pick)
             except (KeyError, IndexError, S.TypeErr, ValueError):
@@ -1175,7 +1179,7 @@ def draw_program(draw, cfg=None):
                     nd_o["limit"] = g.pick([1, 2, 3])
                 nd_o["src"] = p
                 a2 = b.add(nd_o)
-                t2 = b.twin(a2) if a2 is not None else None
+                t2 = b.twin(a2, prefer=g.pick(["reverse", "reverse", "limit", None])) if a2 is not None else None
                 if t2 is not None:
                     cr_twin = (a2, t2)
         if cr_twin is not None:
